@@ -378,10 +378,34 @@ def r31(ctx: Ctx) -> RuleReport:
                 var = heads.pop()
     if var is None:
         raise AnalysisError('Model.reify: return is not three triples with a common source')
-    states = may_unproven(cfg, {(f'{var} in {vp}', False), (vp, False), (f'{var} not in {vp}', True)}, {var})
+    from ..resolve import unique_def, view
     for r in rets:
+        key = f'penman.model:Model.reify: returned variable {var} is outside `{vp}`'
+        d = unique_def(view(ctx, fi), var, r.ast)
+        helper = None
+        if isinstance(d, ast.Call):
+            fs = [t.func for t in ctx.cg.resolve_call(d, fi) if t.kind == 'func']
+            if len(fs) == 1 and any(norm(a) == vp for a in d.args):
+                helper = (fs[0], [norm(a) for a in d.args].index(vp))
+        if helper is not None:
+            h, k = helper
+            pos = h.positional[1:] if h.is_method() and 'staticmethod' not in h.decorators() else h.positional
+            hp = pos[k]
+            hcfg = CFG(h.node)
+            hrets = [nd for nd in hcfg.nodes if nd.kind == 'stmt' and isinstance(nd.ast, ast.Return)]
+            if not hrets or not all(isinstance(x.ast.value, ast.Name) for x in hrets):
+                rep.undecided(key + f' (via {h.qualname})', h.loc(), 'helper does not return a plain name')
+                continue
+            for hr in hrets:
+                hv = hr.ast.value.id
+                st = may_unproven(hcfg, {(f'{hv} in {hp}', False), (hp, False), (f'{hv} not in {hp}', True)}, {hv})
+                bad = 'U' in st.get(hr.id, {'U'})
+                rep.add(key + f' (via {h.qualname})', h.loc(hr.ast), 'violation' if bad else 'ok',
+                        f'{h.qualname} can return {hv} without having tested it against {hp}' if bad else '')
+            continue
+        states = may_unproven(cfg, {(f'{var} in {vp}', False), (vp, False), (f'{var} not in {vp}', True)}, {var})
         bad = 'U' in states.get(r.id, {'U'})
-        rep.add(f'penman.model:Model.reify: returned variable {var} is outside `{vp}`', fi.loc(r.ast), 'violation' if bad else 'ok',
+        rep.add(key, fi.loc(r.ast), 'violation' if bad else 'ok',
                 f'{var} can be returned without having been tested against {vp}' if bad else '')
     return rep
 
